@@ -57,7 +57,8 @@ def digest(walk, spec_out_iter=None):
                                            "n": sum(1 for k, _ in pkv if k in ("sub", "tf")), "connected_at_submit": None,
                                            "retain": kv_get(pkv, "retain", "0") == "1"}
         if res.startswith("err") and cur is not None and cur.close_step is None and cur.error_step is None \
-                and kind in ("svc", "data", "wc", "open"):
+                and kind in ("svc", "data", "wc", "open", "user", "user-disconnect"):
+            # (a user event that fails - e.g. a second DISCONNECT while one is being flushed - halts the engine as well)
             cur.error_step = i
         for c in (f.get("comps", "") or "").split(","):
             if c:
